@@ -12,7 +12,7 @@ EXTENDS Integers, Sequences, TLC, Json
 CONSTANTS L, EMIT
 T(t, v) == [t |-> t, v |-> v]
 Alphabet == { T("lbl","a"), T("lbl","b"), T("equ",0), T("for",0), T("end",0), T("org",0), T("op",0),
-              T("nl",0), T("cmt",0), T("num",1), T("sym",0) }
+              T("nl",0), T("cmt",0), T("num",1), T("sym",0), T("colon",0) }
 Term == { T("eof",0), T("err",0) }
 IsText(k)   == k.t \in {"lbl","equ","for","end","org","op"}
 IsPseudo(k) == k.t \in {"equ","for","end","org"}
@@ -26,8 +26,9 @@ St(q, s) == [q EXCEPT !.st = s]
 Consume(q, in, s) == LET n == Nx(q, in) IN IF n.tok.t = "eof" THEN St(n, "nil") ELSE St(n, s)
 
 RECURSIVE EquValue(_, _)
+\* (a comment after the value is not part of it: repair of D26)
 EquValue(q, in) == IF q.tok.t \in {"nl","eof","err"} THEN q
-                   ELSE EquValue(Nx([q EXCEPT !.vb = Append(@, q.tok)], in), in)
+                   ELSE EquValue(Nx([q EXCEPT !.vb = IF q.tok.t = "cmt" THEN @ ELSE Append(@, q.tok)], in), in)
 Defined(q, nm) == \E k \in 1..Len(q.syms) : q.syms[k][1] = nm
 RECURSIVE Define(_, _, _)
 Define(q, lb, k) == IF k > Len(lb) THEN q
@@ -46,7 +47,7 @@ Step(q, in) ==
                  [] OTHER -> St(q, "consumeLine")
             ELSE IF k.t = "op" THEN St(q, "consumeLine")
             ELSE Consume([q EXCEPT !.lb = Append(@, k.v)], in, "labels")
-         ELSE IF k.t \in {"cmt","nl"} THEN Consume(q, in, "labels")
+         ELSE IF k.t \in {"cmt","nl","colon"} THEN Consume(q, in, "labels")      \* the colon after a label is skipped (repair of D27)
          ELSE IF k.t = "eof" THEN St(q, "nil")
          ELSE St(q, "consumeLine")
     [] q.st = "consumeLine" ->
